@@ -1187,8 +1187,47 @@ func q3Charge(p *Prog, o *obls, cons *ssa.Function, qs queueSpec) {
 			bad = append(bad, fmt.Sprintf("the write at %s is not preceded by a charge of the limiter (AllowN): bits are released without being accounted, the rate bound does not hold", p.instrPos(w)))
 		}
 	}
+	// test and charge refer to the same instant: a budget read at a later time than the charge is evaluated for can
+	// see tokens the charge does not — the charge then fails, deducts nothing (its result is not looked at, the test
+	// having passed) and the packet leaves unaccounted; with nothing deducted the test keeps passing
+	timeArg := func(c *ssa.Call) ssa.Value {
+		args := c.Call.Args
+		if !c.Call.IsInvoke() && len(args) > 0 {
+			args = args[1:]
+		}
+		for _, a := range args {
+			if typeKey(a.Type()) == "time.Time" {
+				return a
+			}
+		}
+		return nil
+	}
+	for _, w := range writes {
+		F := w.Parent()
+		var budgets, charges []*ssa.Call
+		instrsOf(F, func(in ssa.Instruction) {
+			c, ok := in.(*ssa.Call)
+			if !ok {
+				return
+			}
+			if isLimiterCall(c, "Budget", "TokensAt") && timeArg(c) != nil {
+				budgets = append(budgets, c)
+			}
+			if isLimiterCall(c, "AllowN", "ReserveN") && timeArg(c) != nil && instrDominates(c, w) {
+				charges = append(charges, c)
+			}
+		})
+		for _, b := range budgets {
+			for _, c := range charges {
+				tb, tc := timeArg(b), timeArg(c)
+				if p.origin(tb) != p.origin(tc) && p.pureKey(tb) != p.pureKey(tc) {
+					bad = append(bad, fmt.Sprintf("the budget is read for one instant (%s at %s) and the charge made for another (%s at %s): when the bucket refills in between, the charge fails without deducting anything and the packet leaves unaccounted", shortExpr(p, tb), p.instrPos(b), shortExpr(p, tc), p.instrPos(c)))
+				}
+			}
+		}
+	}
 	if len(bad) > 0 {
-		o.bad("Q3", key, p.Pos(cons.Pos()), strings.Join(bad, "; "))
+		o.bad("Q3", key, p.Pos(cons.Pos()), strings.Join(dedupe(bad), "; "))
 	} else {
 		o.ok("Q3", key, p.Pos(cons.Pos()), "every write is dominated by a budget test and by a token charge on the limiter")
 	}
